@@ -43,6 +43,7 @@ inductive MStmt
   | ifNonZeroArr (f : String) (body : List MStmt)        -- if c.F != [n]T{0,…} { … }
   | ifWordCount (k : Nat) (body : List MStmt)            -- if c.GetParameters().WordCount == k { … }
   | subHead (f : String) (typ : String)                  -- marshalled field appended to the command bytes ahead of the parameter block (WriteRequest)
+  | zeros (b : Blk) (n : Nat)                            -- append(raw, 0x00, …, 0x00): n literal zero bytes (string terminator)
   deriving Repr, Inhabited
 
 /-- statements of an Unmarshal body (after the fixed prologue that splits the input into the
@@ -210,6 +211,7 @@ def runMStmt (C : Codecs) (isAndX : Bool) (s : MState) : MStmt → Outcome MStat
       let (bs, v') ← C.enc typ v
       pure { s with head := s.head ++ bs, env := s.env.set f (.t v') }
     | _ => .err
+  | .zeros b n => .ok (s.app b (List.replicate n 0))
 def runMStmts (C : Codecs) (isAndX : Bool) (s : MState) : List MStmt → Outcome MState
   | [] => .ok s
   | st :: rest => do let s' ← runMStmt C isAndX s st; runMStmts C isAndX s' rest
